@@ -233,6 +233,21 @@ func TestAllocs(t *testing.T) {
 			if gen.Chance(t, 1, 2, "mut") {
 				path = gen.MutatePath(t, path)
 			}
+			if gen.Chance(t, 1, 6, "dotseg") {
+				// a path that is not in its shortest form: a wildcard captures "." or ".." like any other value
+				segs := strings.Split(path, "/")
+				if k := gen.IntR(t, 1, len(segs)-1, "dotat"); segs[k] != "" {
+					segs[k] = gen.Pick(t, []string{".", ".."}, "dot")
+					path = strings.Join(segs, "/")
+				}
+				if gen.Chance(t, 1, 2, "dotslash") {
+					path = strings.TrimSuffix(path, "/")
+					if !strings.HasSuffix(path, "/") && gen.Chance(t, 1, 2, "add") {
+						path += "/"
+					}
+				}
+				stats.Class("request:dot-segment")
+			}
 			if host != "" && gen.Chance(t, 1, 3, "port") {
 				host += gen.Pick(t, []string{":8080", ".", ".:443"}, "suffix")
 			}
